@@ -52,7 +52,10 @@ fn main() {
             let seed: u64 = arg(&args, "--seed", "1").parse().unwrap_or(1);
             let out = arg(&args, "--out", "");
             let t0 = Instant::now();
-            let mut rep;
+            let mut rep = Report::new(&prop, "");
+            // a panic of the harness's own code outside a worker job (an assumption about the implementation's data that holds on
+            // the unchanged tree was broken): reported with the case being judged, the results gathered so far are kept
+            let caught = std::panic::catch_unwind(std::panic::AssertUnwindSafe(|| {
             match prop.as_str() {
                 "C03" => {
                     rep = Report::new("C03", "edit histories (corpus, exhaustive op/argument sequences on small shapes, random walks); a case is one history, identified by its script; non-trivial = at least one successful structural edit and at least one rejected call");
@@ -127,6 +130,12 @@ fn main() {
                     eprintln!("unknown property {prop}");
                     std::process::exit(2);
                 }
+            }
+            }));
+            if caught.is_err() {
+                let case = util::LAST_CASE.with(|c| c.borrow().clone());
+                let what = util::LAST_PANIC.with(|c| c.borrow().clone());
+                rep.oracle("judge", "panicked-on-the-implementation's-data", &case, &what);
             }
             let js = rep.to_json(&tier, seed, t0.elapsed().as_secs_f64());
             let text = serde_json::to_string_pretty(&js).unwrap();
